@@ -12,7 +12,7 @@ FLAGS = [f for f in cbmcrun.CBMC_FLAGS if f != "--pointer-overflow-check"]
 def _flags(alg, extra=()):
     d = dict(ctxlayer.ALGS[alg])
     defs = ["-DMAXLEN=(2*BS+7)", "-DALG=%s" % alg.upper(), '-DCTXFILE="%s_mb/%s_ctx_base.c"' % (alg, alg), '-DHDR="%s_mb.h"' % alg, "-DBS=%d" % d["BS"], "-DPADF=%d" % d["PADF"],
-            "-DLEN_LE=%d" % d["LEN_LE"], "-DWORD=%s" % d["WORD"], "-DNWORDS=%d" % d["NWORDS"], "-DFN_SUBMIT=_%s_ctx_mgr_submit_base" % alg, "-DNDEBUG"] + (["-DDATAQ=volatile"] if alg == "sm3" else []) + list(extra)
+            "-DLEN_LE=%d" % d["LEN_LE"], "-DSM3SWAP=%d" % d["SM3SWAP"], "-DWORD=%s" % d["WORD"], "-DNWORDS=%d" % d["NWORDS"], "-DFN_SUBMIT=_%s_ctx_mgr_submit_base" % alg, "-DNDEBUG"] + (["-DDATAQ=volatile"] if alg == "sm3" else []) + list(extra)
     return inc_flags() + ["-I" + os.path.join(VERIF, "cbmc"), "-I" + REPO] + BASE_DEFS + ["-DNO_COMPAT_ISAL_CRYPTO_API_2_24"] + defs
 
 
